@@ -59,3 +59,12 @@ package broker
 //@   loop 2 invariant forall k string, j int :: has(state.members, k) && 0 <= j && j < len(mapval(group.Members, k).Subscriptions) ==> mapval(state.members, k).topics[j] == mapval(group.Members, k).Subscriptions[j]
 //@   loop 2 invariant forall k string :: has(state.assignments, k) == (has(state.members, k) && k != memberID && len(mapval(group.Members, k).Assignments) > 0)
 //@   loop 2 invariant len(member.Assignments) > 0
+
+// persistGroupLocked: writes the record built from the current state (or deletes the record of an empty / absent
+// group); the coordinator's own memory is only read.
+//@ func (c *GroupCoordinator) persistGroupLocked
+//@   opaque_strings
+//@   merge_branches
+//@   requires !isNilIface(c.store) && (state != nil ==> groupOK(state))
+//@   ensures [C15.persist_changes_no_group] groupsUntouched() && keepsMem("string") && keepsMem("assignmentTopic") && keepsMem("int32") && keepsMapLen()
+//@   at PutConsumerGroup#1 before assert [C15.persist_stores_built_record] state != nil && len(state.members) != 0 && arg1 != nil && arg1.GroupId == groupID && arg1.GenerationId == state.generationID && arg1.State == phaseName(state.state) && arg1.Leader == state.leaderID && arg1.RebalanceTimeoutMs == msOf(state.rebalanceTimeout) && (forall k string :: has(arg1.Members, k) == has(state.members, k))
